@@ -1,1 +1,530 @@
-(* placeholder: to be written *)
+(** Proofs for property C09.
+    Part A: the penalty function (every option list accepted by addLockOptions): exact piecewise-
+            linear floor formula, monotone, bounded, partial-unlock formula well defined, penalty
+            amount below the amount.
+    Part B: the locking state machine: invariant over all histories (escrow backing, supply ledger),
+            characterisation of every endpoint against the property text. *)
+From MX Require Import Base.Prelude Gen.Params Model.Penalty.
+
+(** The only facts about the generated constants used below. *)
+Lemma penalty_params :
+  0 < MAXP /\ 0 < MAXPU /\ 0 < EPOCHS_PER_MONTH /\ EPOCHS_PER_MONTH <= EPOCHS_PER_YEAR.
+Proof. vm_compute. repeat split; congruence. Qed.
+
+Definition MAXP_pos : 0 < MAXP := proj1 penalty_params.
+Definition MAXPU_pos : 0 < MAXPU := proj1 (proj2 penalty_params).
+
+(** q = floor(n / d), stated by cross-multiplication *)
+Definition is_floor (q n d : Z) : Prop := q * d <= n < (q + 1) * d.
+
+Lemma is_floor_div n d : 0 < d -> is_floor (n / d) n d.
+Proof. intros. unfold is_floor. pose proof (div_lo n d H). pose proof (div_hi n d H). lia. Qed.
+
+Lemma is_floor_unique q n d : 0 < d -> is_floor q n d -> q = n / d.
+Proof. intros Hd [A B]. apply (proj2 (div_char n d q Hd)). lia. Qed.
+
+(** Break a hypothesis [H : <monadic computation> = Ok _] into its successful steps. *)
+Ltac inv_ok H :=
+  repeat (first
+    [ match type of H with
+      | Ok _ = Ok _ => inversion H; subst; clear H
+      | Err _ = Ok _ => discriminate H
+      | bind ?r ?f = Ok _ =>
+          let a := fresh "a" in let Hb := fresh "Hb" in
+          apply bind_ok in H; destruct H as (a & Hb & H)
+      | (if ?b then _ else _) = Ok _ =>
+          let E := fresh "E" in destruct b eqn:E
+      | (let (_, _) := ?x in _) = Ok _ => destruct x
+      end
+    | progress cbv beta in H ]).
+
+(** the next guard of a monadic hypothesis must have passed *)
+Ltac case_if H E :=
+  match type of H with (if ?b then _ else _) = _ => destruct b eqn:E; [|discriminate H] end.
+
+(** ================================================================== Part A: lock options *)
+(** What addLockOptions guarantees about the stored list. *)
+Fixpoint chain (l : list opt) : Prop :=
+  match l with
+  | a :: ((b :: _) as t) => fst a < fst b /\ snd a < snd b /\ chain t
+  | _ => True
+  end.
+
+Lemma chain_cons2 a b t : chain (a :: b :: t) = (fst a < fst b /\ snd a < snd b /\ chain (b :: t)).
+Proof. reflexivity. Qed.
+
+Definition opt_ok (o : opt) : Prop := EPOCHS_PER_YEAR <= fst o /\ 0 <= snd o <= MAXP.
+
+Definition wf_opts (l : list opt) : Prop :=
+  l <> [] /\ Z.of_nat (length l) <= MAX_LOCK_OPTIONS /\ chain l /\ Forall opt_ok l.
+
+Fixpoint sorted_le (l : list opt) : Prop :=
+  match l with
+  | a :: ((b :: _) as t) => fst a <= fst b /\ sorted_le t
+  | _ => True
+  end.
+
+Lemma insert_sorted o l : sorted_le l -> sorted_le (insert_opt o l).
+Proof.
+  induction l as [|h t IH]; simpl; intros Hs; [exact I|].
+  destruct (fst o <=? fst h) eqn:E.
+  - apply Z.leb_le in E. simpl. split; assumption.
+  - apply Z.leb_gt in E. destruct t as [|h2 t2].
+    + simpl. split; [lia | exact I].
+    + destruct Hs as [H1 H2]. specialize (IH H2). simpl in IH |- *.
+      destruct (fst o <=? fst h2) eqn:E2.
+      * split; [lia | exact IH].
+      * split; [exact H1 | exact IH].
+Qed.
+
+Lemma sort_sorted l : sorted_le (sort_opts l).
+Proof. induction l as [|h t IH]; simpl; [exact I | apply insert_sorted; exact IH]. Qed.
+
+Lemma insert_forall (P : opt -> Prop) o l : P o -> Forall P l -> Forall P (insert_opt o l).
+Proof.
+  intros Ho. induction l as [|h t IH]; simpl; intros Hl; [constructor; auto|].
+  inversion Hl; subst. destruct (fst o <=? fst h); constructor; auto.
+Qed.
+
+Lemma sort_forall (P : opt -> Prop) l : Forall P l -> Forall P (sort_opts l).
+Proof.
+  induction l as [|h t IH]; simpl; intros Hl; [constructor|].
+  inversion Hl; subst. apply insert_forall; auto.
+Qed.
+
+Lemma insert_length o l : length (insert_opt o l) = S (length l).
+Proof. induction l as [|h t IH]; simpl; [reflexivity|]. destruct (fst o <=? fst h); simpl; congruence. Qed.
+
+Lemma sort_length l : length (sort_opts l) = length l.
+Proof. induction l as [|h t IH]; simpl; [reflexivity|]. rewrite insert_length. congruence. Qed.
+
+Lemma checks_chain l : sorted_le l -> no_dup_epochs l = true -> valid_pcts l = true -> chain l.
+Proof.
+  induction l as [|a t IH]; [intros; exact I|].
+  destruct t as [|b t2]; [intros; exact I|].
+  intros [H1 H2] Hd Hv. cbn [no_dup_epochs] in Hd. cbn [valid_pcts] in Hv.
+  apply andb_prop in Hd. destruct Hd as [Hd1 Hd2]. apply andb_prop in Hv. destruct Hv as [Hv1 Hv2].
+  apply negb_true_iff in Hd1. apply Z.eqb_neq in Hd1. apply Z.ltb_lt in Hv1.
+  rewrite chain_cons2. split; [lia|]. split; [exact Hv1|]. apply IH; assumption.
+Qed.
+
+Lemma add_lock_options_wf old new l :
+  old = [] \/ wf_opts old -> add_lock_options old new = Ok l -> wf_opts l.
+Proof.
+  intros Hold H. unfold add_lock_options in H.
+  case_if H E1. case_if H E2. cbv zeta in H. case_if H E3. case_if H E4. case_if H E5.
+  inversion H; subst; clear H.
+  apply Z.leb_le in E1.
+  split; [|split; [|split]].
+  - intros Hn. rewrite Hn in E3. discriminate.
+  - rewrite sort_length, app_length. exact E1.
+  - apply checks_chain; auto using sort_sorted.
+  - apply sort_forall. apply Forall_app. split.
+    + destruct Hold as [->|(_ & _ & _ & Hf)]; [constructor | exact Hf].
+    + apply Forall_forall. intros o Ho. rewrite forallb_forall in E2. specialize (E2 o Ho).
+      apply andb_prop in E2. destruct E2 as [E2 E2c]. apply andb_prop in E2. destruct E2 as [E2a E2b].
+      apply Z.leb_le in E2a, E2b, E2c. unfold opt_ok. lia.
+Qed.
+
+(** ================================================================== Part A: interpolation *)
+(** the documented value on the segment [a, b] *)
+Definition seg_num (a b : opt) (x : Z) : Z := snd a * (fst b - x) + snd b * (x - fst a).
+Definition seg (a b : opt) (x : Z) : Z := seg_num a b x / (fst b - fst a).
+
+(** piecewise evaluation over a list of points: the first segment whose right end is >= x *)
+Fixpoint eval (l : list opt) (x : Z) : Z :=
+  match l with
+  | [] => 0
+  | a :: t => match t with
+              | [] => snd a
+              | b :: _ => if x <=? fst b then seg a b x else eval t x
+              end
+  end.
+
+(** points (0,0) :: options: epochs strictly increasing, percentages non-decreasing within [0, MAXP],
+    every left end strictly below MAXP *)
+Fixpoint pchain (l : list opt) : Prop :=
+  match l with
+  | a :: ((b :: _) as t) =>
+      fst a < fst b /\ 0 <= snd a /\ snd a <= snd b /\ snd a < MAXP /\ snd b <= MAXP /\ pchain t
+  | _ => True
+  end.
+
+Lemma pchain_cons2 a b t :
+  pchain (a :: b :: t) =
+  (fst a < fst b /\ 0 <= snd a /\ snd a <= snd b /\ snd a < MAXP /\ snd b <= MAXP /\ pchain (b :: t)).
+Proof. reflexivity. Qed.
+
+Lemma eval_cons2 a b t x : eval (a :: b :: t) x = if x <=? fst b then seg a b x else eval (b :: t) x.
+Proof. reflexivity. Qed.
+
+Lemma find_seg_cons2 a b t x :
+  find_seg (a :: b :: t) x = if (fst a <=? x) && (x <=? fst b) then (a, b) else find_seg (b :: t) x.
+Proof. reflexivity. Qed.
+
+Lemma chain_pchain l : chain l -> Forall opt_ok l -> pchain l.
+Proof.
+  induction l as [|a t IH]; [intros; exact I|].
+  destruct t as [|b t2]; [intros; exact I|].
+  intros (H1 & H2 & H3) Hf. inversion Hf as [|? ? Ha Hf2]; subst. inversion Hf2 as [|? ? Hb _]; subst.
+  unfold opt_ok in Ha, Hb. rewrite pchain_cons2.
+  split; [exact H1|]. split; [lia|]. split; [lia|]. split; [lia|]. split; [lia|]. apply IH; assumption.
+Qed.
+
+Lemma wf_pchain l : wf_opts l -> pchain ((0, 0) :: l).
+Proof.
+  intros (Hne & _ & Hc & Hf). destruct l as [|a t]; [congruence|].
+  pose proof penalty_params as (HM & _ & Hm & Hy).
+  inversion Hf as [|? ? Ha _]; subst. unfold opt_ok in Ha.
+  rewrite pchain_cons2; cbn [fst snd]. split; [lia|]. split; [lia|]. split; [lia|]. split; [exact HM|]. split; [lia|].
+  apply chain_pchain; assumption.
+Qed.
+
+Lemma last_cons2 (a b : opt) t d : last (a :: b :: t) d = last (b :: t) d.
+Proof. reflexivity. Qed.
+
+Lemma pchain_tail a t : pchain (a :: t) -> pchain t.
+Proof. destruct t as [|b t2]; [intros; exact I|]. rewrite pchain_cons2. tauto. Qed.
+
+Lemma pchain_last_ge t : forall a, pchain (a :: t) ->
+  fst a <= fst (last (a :: t) (0, 0)) /\ snd a <= snd (last (a :: t) (0, 0)).
+Proof.
+  induction t as [|b t2 IH]; intros a Hc.
+  - simpl. lia.
+  - rewrite last_cons2. rewrite pchain_cons2 in Hc. destruct Hc as (H1 & H2 & H3 & H4 & H5 & H6).
+    specialize (IH b H6). lia.
+Qed.
+
+Section Seg.
+  Variables (a b : opt) (x y : Z).
+  Hypothesis He : fst a < fst b.
+  Hypothesis Hp : snd a <= snd b.
+
+  Lemma seg_bounds : fst a <= x <= fst b -> snd a <= seg a b x <= snd b.
+  Proof.
+    intros Hx. unfold seg, seg_num. set (d := fst b - fst a). assert (Hd : 0 < d) by (unfold d; lia).
+    split.
+    - apply Z.div_le_lower_bound; [exact Hd|]. unfold d. nia.
+    - apply Z.div_le_upper_bound; [exact Hd|]. unfold d. nia.
+  Qed.
+
+  Lemma seg_mono : fst a <= x -> x <= y -> y <= fst b -> seg a b x <= seg a b y.
+  Proof.
+    intros H1 H2 H3. unfold seg, seg_num. apply Z.div_le_mono; [lia|]. nia.
+  Qed.
+
+  Lemma seg_lt M : fst a <= x < fst b -> snd a < M -> snd b <= M -> seg a b x < M.
+  Proof.
+    intros Hx Ha Hb. unfold seg, seg_num. apply Z.div_lt_upper_bound; [lia|]. nia.
+  Qed.
+
+  Lemma seg_left : seg a b (fst a) = snd a.
+  Proof.
+    unfold seg, seg_num. replace (fst a - fst a) with 0 by lia. rewrite Z.mul_0_r, Z.add_0_r.
+    apply Z.div_mul. lia.
+  Qed.
+
+  Lemma seg_right : seg a b (fst b) = snd b.
+  Proof.
+    unfold seg, seg_num. replace (fst b - fst b) with 0 by lia. rewrite Z.mul_0_r, Z.add_0_l.
+    apply Z.div_mul. lia.
+  Qed.
+End Seg.
+
+Lemma eval_bounds t : forall a x, pchain (a :: t) ->
+  fst a <= x <= fst (last (a :: t) (0, 0)) ->
+  snd a <= eval (a :: t) x <= snd (last (a :: t) (0, 0)).
+Proof.
+  induction t as [|b t2 IH]; intros a x Hc Hx.
+  - simpl. lia.
+  - rewrite last_cons2 in *. pose proof Hc as Hc0. rewrite pchain_cons2 in Hc.
+    destruct Hc as (H1 & H2 & H3 & H4 & H5 & H6).
+    destruct (pchain_last_ge t2 b H6) as [L1 L2].
+    rewrite eval_cons2. destruct (x <=? fst b) eqn:E.
+    + apply Z.leb_le in E. pose proof (seg_bounds a b x H1 H3 ltac:(lia)). lia.
+    + apply Z.leb_gt in E. specialize (IH b x H6 ltac:(lia)). lia.
+Qed.
+
+Lemma eval_mono t : forall a x y, pchain (a :: t) ->
+  fst a <= x -> x <= y -> y <= fst (last (a :: t) (0, 0)) ->
+  eval (a :: t) x <= eval (a :: t) y.
+Proof.
+  induction t as [|b t2 IH]; intros a x y Hc Hx Hxy Hy.
+  - simpl. lia.
+  - rewrite last_cons2 in *. pose proof Hc as Hc0. rewrite pchain_cons2 in Hc.
+    destruct Hc as (H1 & H2 & H3 & H4 & H5 & H6).
+    rewrite !eval_cons2. destruct (y <=? fst b) eqn:Ey.
+    + apply Z.leb_le in Ey. assert (Ex : (x <=? fst b) = true) by (apply Z.leb_le; lia). rewrite Ex.
+      apply seg_mono; lia.
+    + apply Z.leb_gt in Ey. destruct (x <=? fst b) eqn:Ex.
+      * apply Z.leb_le in Ex. pose proof (seg_bounds a b x H1 H3 ltac:(lia)).
+        pose proof (eval_bounds t2 b y H6 ltac:(lia)). lia.
+      * apply Z.leb_gt in Ex. apply IH; auto; lia.
+Qed.
+
+Lemma eval_lt t : forall a x, pchain (a :: t) ->
+  fst a <= x < fst (last (a :: t) (0, 0)) -> eval (a :: t) x < MAXP.
+Proof.
+  induction t as [|b t2 IH]; intros a x Hc Hx.
+  - simpl in Hx. lia.
+  - rewrite last_cons2 in *. rewrite pchain_cons2 in Hc. destruct Hc as (H1 & H2 & H3 & H4 & H5 & H6).
+    rewrite eval_cons2. destruct (x <=? fst b) eqn:E.
+    + apply Z.leb_le in E. destruct (Z.eq_dec x (fst b)) as [->|Hne].
+      * rewrite seg_right by lia. destruct t2 as [|c t3]; [simpl in Hx; lia|].
+        rewrite pchain_cons2 in H6. lia.
+      * apply seg_lt; lia.
+    + apply Z.leb_gt in E. apply IH; auto. lia.
+Qed.
+
+(** the model's segment search agrees with [eval] *)
+Lemma find_seg_spec t : forall a x, pchain (a :: t) -> t <> [] ->
+  fst a <= x <= fst (last (a :: t) (0, 0)) ->
+  let '(p, n) := find_seg (a :: t) x in
+  fst p <= x <= fst n /\ fst p < fst n /\ eval (a :: t) x = seg p n x.
+Proof.
+  induction t as [|b t2 IH]; intros a x Hc Hne Hx; [congruence|].
+  rewrite last_cons2 in Hx. rewrite pchain_cons2 in Hc. destruct Hc as (H1 & H2 & H3 & H4 & H5 & H6).
+  rewrite find_seg_cons2, eval_cons2.
+  destruct (x <=? fst b) eqn:E.
+  - apply Z.leb_le in E. assert (Ea : (fst a <=? x) = true) by (apply Z.leb_le; lia).
+    rewrite Ea. simpl. repeat split; lia.
+  - apply Z.leb_gt in E. rewrite andb_false_r.
+    destruct t2 as [|c t3]; [simpl in Hx; lia|].
+    apply IH; auto; [discriminate | lia].
+Qed.
+
+Lemma lin_interp_seg p n x : fst p <= x <= fst n -> fst p < fst n ->
+  lin_interp (fst p) (fst n) x (snd p) (snd n) = Ok (seg p n x).
+Proof.
+  intros Hx Hlt. unfold lin_interp.
+  assert (E1 : (x <? fst p) = false) by (apply Z.ltb_ge; lia).
+  assert (E2 : (fst n <? x) = false) by (apply Z.ltb_ge; lia).
+  rewrite E1, E2. simpl. unfold sub_chk.
+  assert (E3 : (fst n <? x) = false) by exact E2. rewrite E3. simpl.
+  rewrite E1. simpl.
+  assert (E4 : (fst n <? fst p) = false) by (apply Z.ltb_ge; lia). rewrite E4. simpl.
+  unfold div_chk. assert (E5 : (fst n - fst p =? 0) = false) by (apply Z.eqb_neq; lia). rewrite E5.
+  reflexivity.
+Qed.
+
+Definition e_last (l : list opt) : Z := fst (last_opt l).
+Definition p_last (l : list opt) : Z := snd (last_opt l).
+
+Lemma last_pts l : l <> [] -> last ((0, 0) :: l) (0, 0) = last_opt l.
+Proof. destruct l; [congruence | reflexivity]. Qed.
+
+Lemma pct_full_eval l x : wf_opts l -> 0 <= x <= e_last l ->
+  pct_full l x = Ok (eval ((0, 0) :: l) x).
+Proof.
+  intros Hwf Hx. pose proof (wf_pchain l Hwf) as Hpc. destruct Hwf as (Hne & _ & _ & _).
+  destruct l as [|first rest]; [congruence|].
+  unfold pct_full. unfold e_last in Hx.
+  assert (E0 : (x <=? fst (last_opt (first :: rest))) = true) by (apply Z.leb_le; lia). rewrite E0.
+  pose proof Hpc as Hpc0. rewrite pchain_cons2 in Hpc; cbn [fst snd] in Hpc. destruct Hpc as (H1 & _ & H3 & _ & H5 & H6).
+  rewrite eval_cons2; cbn [fst].
+  destruct (negb (match rest with [] => true | _ => false end) && (fst first <? x)) eqn:Ec.
+  - apply andb_prop in Ec. destruct Ec as [Er Ef]. apply Z.ltb_lt in Ef.
+    assert (Hrest : rest <> []) by (destruct rest; [discriminate | discriminate]).
+    assert (Ex : (x <=? fst first) = false) by (apply Z.leb_gt; lia). rewrite Ex.
+    pose proof (find_seg_spec rest first x H6 Hrest) as Hs.
+    unfold last_opt in Hx. specialize (Hs ltac:(lia)).
+    destruct (find_seg (first :: rest) x) as [p n]. destruct Hs as (Hpx & Hpn & ->).
+    apply lin_interp_seg; assumption.
+  - assert (Ex : (x <=? fst first) = true).
+    { apply Z.leb_le. destruct rest as [|r rs]; [unfold last_opt in Hx; simpl in Hx; lia|].
+      simpl in Ec. apply Z.ltb_ge in Ec. exact Ec. }
+    rewrite Ex. apply Z.leb_le in Ex.
+    change (lin_interp (fst (0, 0)) (fst first) x (snd (0, 0)) (snd first) = Ok (seg (0, 0) first x)).
+    apply lin_interp_seg; simpl; lia.
+Qed.
+
+(** ------------------------------------------------------------------ adjacency in the point list *)
+Definition adj (a b : opt) (l : list opt) : Prop := exists l1 l2, l = l1 ++ a :: b :: l2.
+
+Lemma pchain_mid_lt l1 : forall d a t, pchain (d :: l1 ++ a :: t) -> fst d < fst a.
+Proof.
+  induction l1 as [|c l1' IH]; intros d a t Hc.
+  - simpl in Hc. tauto.
+  - change (pchain (d :: c :: l1' ++ a :: t)) in Hc. rewrite pchain_cons2 in Hc.
+    destruct Hc as (H1 & _ & _ & _ & _ & H6). specialize (IH c a t H6). lia.
+Qed.
+
+Lemma pchain_app_tail l1 : forall l2, pchain (l1 ++ l2) -> pchain l2.
+Proof.
+  induction l1 as [|c l1' IH]; intros l2 Hc; [exact Hc|].
+  apply IH. apply (pchain_tail c). exact Hc.
+Qed.
+
+Lemma eval_adj l1 : forall a b l2 x, pchain (l1 ++ a :: b :: l2) -> fst a <= x <= fst b ->
+  eval (l1 ++ a :: b :: l2) x = seg a b x.
+Proof.
+  induction l1 as [|c l1' IH]; intros a b l2 x Hc Hx.
+  - simpl. assert (E : (x <=? fst b) = true) by (apply Z.leb_le; lia). rewrite E. reflexivity.
+  - destruct l1' as [|d l1''].
+    + (* c :: a :: b :: l2 *)
+      change (pchain (c :: a :: b :: l2)) in Hc. pose proof Hc as Hc0. rewrite !pchain_cons2 in Hc.
+      destruct Hc as (H1 & H2 & H3 & H4 & H5 & (G1 & G2 & G3 & G4 & G5 & G6)).
+      change (eval (c :: a :: b :: l2) x = seg a b x). rewrite eval_cons2.
+      destruct (x <=? fst a) eqn:E.
+      * apply Z.leb_le in E. assert (x = fst a) by lia. subst x.
+        rewrite seg_right by lia. rewrite seg_left by lia. reflexivity.
+      * rewrite eval_cons2. assert (E2 : (x <=? fst b) = true) by (apply Z.leb_le; lia). rewrite E2. reflexivity.
+    + change (pchain (c :: d :: l1'' ++ a :: b :: l2)) in Hc. pose proof Hc as Hc0. rewrite pchain_cons2 in Hc.
+      destruct Hc as (H1 & _ & _ & _ & _ & H6).
+      pose proof (pchain_mid_lt l1'' d a (b :: l2) H6) as Hda.
+      change (eval (c :: d :: l1'' ++ a :: b :: l2) x = seg a b x). rewrite eval_cons2.
+      assert (E : (x <=? fst d) = false) by (apply Z.leb_gt; lia). rewrite E.
+      apply (IH a b l2 x); assumption.
+Qed.
+
+Lemma adj_bounds l1 : forall a b l2 h, pchain (h :: l1 ++ a :: b :: l2) ->
+  fst h <= fst a /\ fst a < fst b /\ fst b <= fst (last (h :: l1 ++ a :: b :: l2) (0, 0)).
+Proof.
+  induction l1 as [|c l1' IH]; intros a b l2 h Hc.
+  - change (pchain (h :: a :: b :: l2)) in Hc. rewrite !pchain_cons2 in Hc.
+    destruct Hc as (H1 & _ & _ & _ & _ & (G1 & _ & _ & _ & _ & G6)).
+    change (last (h :: [] ++ a :: b :: l2) (0, 0)) with (last (b :: l2) (0, 0)).
+    pose proof (pchain_last_ge l2 b G6). lia.
+  - change (pchain (h :: c :: l1' ++ a :: b :: l2)) in Hc. rewrite pchain_cons2 in Hc.
+    destruct Hc as (H1 & _ & _ & _ & _ & H6).
+    change (last (h :: (c :: l1') ++ a :: b :: l2) (0, 0)) with (last (c :: l1' ++ a :: b :: l2) (0, 0)).
+    specialize (IH a b l2 c H6). lia.
+Qed.
+
+(** some segment contains every x in range *)
+Lemma seg_exists t : forall a x, pchain (a :: t) -> t <> [] ->
+  fst a <= x <= fst (last (a :: t) (0, 0)) ->
+  exists p n, adj p n (a :: t) /\ fst p <= x <= fst n.
+Proof.
+  induction t as [|b t2 IH]; intros a x Hc Hne Hx; [congruence|].
+  rewrite last_cons2 in Hx.
+  destruct (Z_le_gt_dec x (fst b)) as [Hle|Hgt].
+  - exists a, b. split; [exists [], t2; reflexivity | lia].
+  - destruct t2 as [|c t3]; [simpl in Hx; lia|].
+    destruct (IH b x (pchain_tail _ _ Hc) ltac:(discriminate) ltac:(lia)) as (p & n & (l1 & l2 & Hl) & Hpn).
+    exists p, n. split; [|exact Hpn]. exists (a :: l1), l2. rewrite Hl. reflexivity.
+Qed.
+
+(** ================================================================== Part A: the penalty laws *)
+(** pen_exact: on ANY segment of (0,0)::options containing x, the percentage is the floor of the
+    linear interpolation between the segment's end points. *)
+Theorem pen_exact l x a b : wf_opts l -> adj a b ((0, 0) :: l) -> fst a <= x <= fst b ->
+  exists q, pct_full l x = Ok q /\
+            is_floor q (snd a * (fst b - x) + snd b * (x - fst a)) (fst b - fst a).
+Proof.
+  intros Hwf (l1 & l2 & Hl) Hx. pose proof (wf_pchain l Hwf) as Hpc.
+  assert (Hne : l <> []) by apply Hwf.
+  assert (Hb : 0 <= fst a /\ fst a < fst b /\ fst b <= e_last l).
+  { pose proof Hpc as Hpc'. rewrite Hl in Hpc'. unfold e_last. rewrite <- (last_pts l Hne). rewrite Hl.
+    destruct l1 as [|h l1'].
+    - simpl in Hl. injection Hl as Ha Hl'. subst a. simpl app in *. rewrite pchain_cons2 in Hpc'.
+      destruct Hpc' as (G1 & _ & _ & _ & _ & G6). rewrite last_cons2.
+      pose proof (pchain_last_ge l2 b G6). cbn [fst] in *. lia.
+    - simpl in Hl. injection Hl as Hh Hl'. subst h. rewrite <- app_comm_cons in *.
+      pose proof (adj_bounds l1' a b l2 (0, 0) Hpc') as Hab. cbn [fst] in Hab. exact Hab. }
+  exists (eval ((0, 0) :: l) x). split.
+  - apply pct_full_eval; [exact Hwf | lia].
+  - rewrite Hl. rewrite Hl in Hpc. rewrite (eval_adj l1 a b l2 x Hpc Hx).
+    unfold seg, seg_num. apply is_floor_div. lia.
+Qed.
+
+Theorem pen_segment_exists l x : wf_opts l -> 0 <= x <= e_last l ->
+  exists a b, adj a b ((0, 0) :: l) /\ fst a <= x <= fst b.
+Proof.
+  intros Hwf Hx. assert (Hne : l <> []) by apply Hwf.
+  apply seg_exists; [apply wf_pchain; exact Hwf | exact Hne |].
+  rewrite (last_pts l Hne). simpl. exact Hx.
+Qed.
+
+Theorem pen_monotone l x y : wf_opts l -> 0 <= x -> x <= y -> y <= e_last l ->
+  exists qx qy, pct_full l x = Ok qx /\ pct_full l y = Ok qy /\ qx <= qy.
+Proof.
+  intros Hwf H0 Hxy Hy. assert (Hne : l <> []) by apply Hwf.
+  exists (eval ((0, 0) :: l) x), (eval ((0, 0) :: l) y).
+  split; [apply pct_full_eval; [exact Hwf | lia]|]. split; [apply pct_full_eval; [exact Hwf | lia]|].
+  apply eval_mono; [apply wf_pchain; exact Hwf | simpl; lia | exact Hxy |].
+  rewrite (last_pts l Hne). exact Hy.
+Qed.
+
+Theorem pen_bounded l x : wf_opts l -> 0 <= x <= e_last l ->
+  exists q, pct_full l x = Ok q /\ 0 <= q <= p_last l /\ p_last l <= MAXP /\ (x < e_last l -> q < MAXP).
+Proof.
+  intros Hwf Hx. assert (Hne : l <> []) by apply Hwf. pose proof (wf_pchain l Hwf) as Hpc.
+  exists (eval ((0, 0) :: l) x). split; [apply pct_full_eval; assumption|].
+  pose proof (eval_bounds l (0, 0) x Hpc) as Hb. rewrite (last_pts l Hne) in Hb.
+  specialize (Hb ltac:(simpl; exact Hx)). simpl snd in Hb at 1.
+  split; [exact Hb|]. split.
+  - destruct Hwf as (_ & _ & _ & Hf). unfold p_last, last_opt.
+    assert (Hin : In (last l (0, 0)) l).
+    { clear - Hne. induction l as [|a t IH]; [congruence|]. destruct t as [|b t2]; [left; reflexivity|].
+      right. apply IH. discriminate. }
+    rewrite Forall_forall in Hf. apply (Hf _ Hin).
+  - intros Hlt. apply (eval_lt l (0, 0) x Hpc). rewrite (last_pts l Hne). simpl. unfold e_last in Hlt. lia.
+Qed.
+
+Theorem pen_fails_beyond l x : e_last l < x -> is_ok (pct_full l x) = false.
+Proof.
+  intros Hx. unfold pct_full. destruct l as [|f r]; [reflexivity|].
+  unfold e_last in Hx. assert (E : (x <=? fst (last_opt (f :: r))) = false) by (apply Z.leb_gt; lia).
+  rewrite E. reflexivity.
+Qed.
+
+(** pen_partial: the reduction percentage (p_old - p_new) / (1 - p_new) in basis points: no
+    underflow, divisor positive, result within [0, MAXP] *)
+Theorem pen_partial l old new : wf_opts l -> 0 <= new -> new < old -> old <= e_last l ->
+  exists po pn q, pct_full l old = Ok po /\ pct_full l new = Ok pn /\ 0 <= pn <= po /\ po <= MAXP /\ pn < MAXP /\
+                  pct_partial l old new = Ok q /\ is_floor q ((po - pn) * MAXP) (MAXP - pn) /\ 0 <= q <= MAXP.
+Proof.
+  intros Hwf H0 Hlt Hle.
+  destruct (pen_monotone l new old Hwf H0 ltac:(lia) Hle) as (pn & po & Hn & Ho & Hm).
+  destruct (pen_bounded l new Hwf ltac:(lia)) as (pn' & Hn' & Hb1 & Hb2 & Hb3).
+  destruct (pen_bounded l old Hwf ltac:(lia)) as (po' & Ho' & Hc1 & Hc2 & _).
+  rewrite Hn in Hn'. inversion Hn'; subst pn'. rewrite Ho in Ho'. inversion Ho'; subst po'.
+  specialize (Hb3 ltac:(lia)).
+  exists po, pn, ((po - pn) * MAXP / (MAXP - pn)).
+  split; [exact Ho|]. split; [exact Hn|]. split; [lia|]. split; [lia|]. split; [exact Hb3|].
+  pose proof MAXP_pos as HM.
+  split; [|split].
+  - assert (E1 : (po <? pn) = false) by (apply Z.ltb_ge; lia).
+    assert (E2 : (MAXP <? pn) = false) by (apply Z.ltb_ge; lia).
+    assert (E3 : (MAXP - pn =? 0) = false) by (apply Z.eqb_neq; lia).
+    unfold pct_partial. rewrite Ho, Hn. cbn [bind]. unfold sub_chk. rewrite E1. cbn [bind]. rewrite E2. cbn [bind].
+    unfold div_chk. rewrite E3. reflexivity.
+  - apply is_floor_div. lia.
+  - split; [apply div_nonneg; nia|]. apply Z.div_le_upper_bound; [lia|]. nia.
+Qed.
+
+(** the percentage getPenaltyAmount applies is always within [0, MAXP] *)
+Lemma penalty_pct_range l prev new pct : wf_opts l -> 0 <= new ->
+  penalty_pct l prev new = Ok pct -> 0 <= pct <= MAXP /\ 0 < prev <= e_last l /\ new < prev.
+Proof.
+  intros Hwf H0 H. unfold penalty_pct in H.
+  destruct (0 <? prev) eqn:E1; [|discriminate]. destruct (new <? prev) eqn:E2; [|discriminate].
+  apply Z.ltb_lt in E1, E2.
+  assert (Hle : prev <= e_last l).
+  { destruct (Z_le_gt_dec prev (e_last l)) as [Hle|Hgt]; [exact Hle|].
+    pose proof (pen_fails_beyond l prev ltac:(lia)) as Hf.
+    destruct (new =? 0).
+    - rewrite H in Hf. discriminate.
+    - unfold pct_partial in H. destruct (pct_full l prev); [discriminate | cbn [bind] in H; discriminate]. }
+  destruct (new =? 0) eqn:E3.
+  - destruct (pen_bounded l prev Hwf ltac:(lia)) as (q & Hq & Hb & Hb2 & _). rewrite H in Hq. inversion Hq; subst. lia.
+  - destruct (pen_partial l prev new Hwf H0 E2 Hle) as (po & pn & q & _ & _ & _ & _ & _ & Hq & _ & Hr).
+    rewrite H in Hq. inversion Hq; subst. lia.
+Qed.
+
+(** pen_amount: penalty = floor(amount * pct / MAXP) <= amount, and < amount unless pct = MAXP *)
+Theorem pen_amount l amt prev new pen : wf_opts l -> 0 <= new -> 0 <= amt ->
+  penalty_amount l amt prev new = Ok pen ->
+  exists pct, penalty_pct l prev new = Ok pct /\ 0 <= pct <= MAXP /\
+              is_floor pen (amt * pct) MAXP /\ 0 <= pen <= amt /\ (pct < MAXP -> 0 < amt -> pen < amt).
+Proof.
+  intros Hwf H0 Ha H. unfold penalty_amount in H. apply bind_ok in H. destruct H as (pct & Hp & H).
+  inversion H; subst pen; clear H.
+  destruct (penalty_pct_range l prev new pct Hwf H0 Hp) as (Hr & _).
+  pose proof MAXP_pos as HM.
+  exists pct. split; [exact Hp|]. split; [exact Hr|]. split; [apply is_floor_div; exact HM|].
+  split.
+  - split; [apply div_nonneg; nia|]. apply Z.div_le_upper_bound; [lia|]. nia.
+  - intros Hlt Hpos. apply Z.div_lt_upper_bound; [lia|]. nia.
+Qed.
